@@ -40,7 +40,8 @@ Zeros(n) == [i \in 1..n |-> 0]
 gF(name, n)        == [g |-> "fix",  name |-> name, n |-> n]                    \* n opaque bytes
 gC(name, n, tk)    == [g |-> "code", name |-> name, n |-> n, tk |-> tk]         \* a type / choice code
 gD(name, n)        == [g |-> "decl", name |-> name, n |-> n]                    \* a length declared for data outside the message
-gO(name, ln)       == [g |-> "opq",  name |-> name, ln |-> ln]                  \* opaque<..> with an ln-byte length
+gO(name, ln)       == [g |-> "opq",  name |-> name, ln |-> ln, tk |-> ""]       \* opaque<..> with an ln-byte length
+gOr(name, ln)      == [g |-> "opq",  name |-> name, ln |-> ln, tk |-> "resize"] \* ... whose content is also resized to boundary lengths
 gL(name, ln, el)   == [g |-> "list", name |-> name, ln |-> ln, el |-> el]       \* vector of el-byte elements
 gV(name, ln, body) == [g |-> "vec",  name |-> name, ln |-> ln, body |-> body]   \* vector holding the fields of body
 gR(name, ln, item) == [g |-> "rep",  name |-> name, ln |-> ln, item |-> item]   \* vector holding repetitions of item
@@ -64,13 +65,14 @@ ExtSchema(ctx, t) ==
             [] t = 43 -> << gL("versions", 1, 2) >>
             [] t = 44 -> << gO("cookie", 2) >>
             [] t = 45 -> << gL("ke_modes", 1, 1) >>
-            [] t = 51 -> << gR("client_shares", 2, << gC("group", 2, "code16"), gO("key_exchange", 2) >>) >>
-            [] t = 65037 -> << gC("ech_type", 1, "code8"), gF("cipher_suite", 4), gF("config_id", 1), gO("enc", 2), gO("payload", 2) >>
+            [] t = 51 -> << gR("client_shares", 2, << gC("group", 2, "reg:named_group"), gO("key_exchange", 2) >>) >>
+            [] t = 65037 -> << gC("ech_type", 1, "code8"), gC("kdf_id", 2, "reg:hpke_kdf"), gC("aead_id", 2, "reg:hpke_aead"),
+                               gC("config_id", 1, "code8"), gOr("enc", 2), gOr("payload", 2) >>
             [] t = 65281 -> << gO("renegotiated_connection", 1) >>
             [] OTHER -> << Rest("data") >> )
     [] ctx = "sh" ->
         ( CASE t = 43 -> << gC("selected_version", 2, "code16") >>
-            [] t = 51 -> << gC("group", 2, "code16"), gO("key_exchange", 2) >>
+            [] t = 51 -> << gC("group", 2, "reg:named_group"), gO("key_exchange", 2) >>
             [] t = 41 -> << gF("selected_identity", 2) >>
             [] t = 16 -> << gR("protocol_name_list", 2, << gO("protocol_name", 1) >>) >>
             [] t = 11 -> << gL("ec_point_format_list", 1, 1) >>
@@ -78,7 +80,7 @@ ExtSchema(ctx, t) ==
             [] OTHER -> << Rest("data") >> )
     [] ctx = "hrr" ->
         ( CASE t = 43 -> << gC("selected_version", 2, "code16") >>
-            [] t = 51 -> << gC("selected_group", 2, "code16") >>
+            [] t = 51 -> << gC("selected_group", 2, "reg:named_group") >>
             [] t = 44 -> << gO("cookie", 2) >>
             [] OTHER -> << Rest("data") >> )
     [] ctx = "ee" ->
@@ -106,16 +108,16 @@ MsgSchemas(kind, v13, hrr, fromClient) ==
     [] kind = 8 -> << << gX("extensions", IF fromClient THEN "cee" ELSE "ee") >> >>
     [] kind = 11 -> IF v13 THEN << << gO("request_context", 1), gR("certificate_list", 3, << gO("cert_data", 3), gX("extensions", "certext") >>) >> >>
                            ELSE << << gR("certificate_list", 3, << gO("cert_data", 3) >>) >> >>
-    [] kind = 12 -> << << gC("curve_type", 1, "code8"), gC("named_curve", 2, "code16"), gO("public", 1), gC("sig_alg", 2, "code16"), gO("signature", 2) >> >>
+    [] kind = 12 -> << << gC("curve_type", 1, "code8"), gC("named_curve", 2, "reg:named_group"), gO("public", 1), gC("sig_alg", 2, "reg:sig_scheme"), gO("signature", 2) >> >>
     [] kind = 13 -> IF v13 THEN << << gO("request_context", 1), gX("extensions", "creq") >> >>
                            ELSE << << gL("certificate_types", 1, 1), gL("signature_schemes", 2, 2), gO("certificate_authorities", 2) >> >>
     [] kind = 14 -> << << >> >>
-    [] kind = 15 -> << << gC("algorithm", 2, "code16"), gO("signature", 2) >> >>
+    [] kind = 15 -> << << gC("algorithm", 2, "reg:sig_scheme"), gO("signature", 2) >> >>
     [] kind = 16 -> << << gO("ecdh_public", 1) >>, << gO("encrypted_pre_master_secret", 2) >> >>
     [] kind = 20 -> << << Rest("verify_data") >> >>
     [] kind = 22 -> << << gC("status_type", 1, "code8"), gO("response", 3) >> >>
     [] kind = 24 -> << << gC("request_update", 1, "code8") >> >>
-    [] kind = 25 -> << << gC("algorithm", 2, "code16"), gD("uncompressed_length", 3), gO("compressed_certificate_message", 3) >> >>
+    [] kind = 25 -> << << gC("algorithm", 2, "reg:cert_compression"), gD("uncompressed_length", 3), gO("compressed_certificate_message", 3) >> >>
     [] OTHER -> << << Rest("body") >> >>
 
 (***************************************************************************)
@@ -159,12 +161,12 @@ POne(sc, b, i, end, pre) ==
          IF i + 1 > end THEN Fail
          ELSE LET n == RdU16(b, i)  ce == i + 1 + n IN
               IF ce > end THEN Fail
-              ELSE Inner(Node(p, i, ce, i, 2, 0, 0, "", 0, FALSE), PExts(sc.ctx, b, i + 2, ce, p, 1), ce)
+              ELSE Inner(Node(p, i, ce, i, 2, 0, 0, "extlist", 0, FALSE), PExts(sc.ctx, b, i + 2, ce, p, 1), ce)
     [] OTHER ->   \* opq, list, vec, rep: an ln-byte length, then the content
          IF i + sc.ln - 1 > end THEN Fail
          ELSE LET n == RdN(b, i, sc.ln)  cs == i + sc.ln  ce == i + sc.ln + n - 1 IN
               IF ce > end THEN Fail
-              ELSE CASE sc.g = "opq" -> Done(ce + 1, << Node(p, i, ce, i, sc.ln, 0, 0, "", 0, FALSE) >>, TRUE)
+              ELSE CASE sc.g = "opq" -> Done(ce + 1, << Node(p, i, ce, i, sc.ln, 0, 0, sc.tk, 0, FALSE) >>, TRUE)
                      [] sc.g = "list" ->
                           LET self == Node(p, i, ce, i, sc.ln, 0, 0, "", sc.el, FALSE)
                               k == n \div sc.el
@@ -251,12 +253,28 @@ Adj(b, A, delta) == [j \in DOMAIN A |-> SetLen(b, A[j], RdN(b, A[j].lp, A[j].ln)
 Size(n) == n.e - n.s + 1
 IsRoot(b, n) == n.s = 1 /\ n.e = Len(b)
 
+\* A field marked as a registry id (tk = "reg:<registry>") ranges over 0, every registered value, every registered
+\* value -1 / +1, 0xffff and a few u16 boundaries: a parser that trusts "the registry knows it" is as wrong as one
+\* that forgets a bound.  (IANA HPKE KDF / AEAD ids incl. the export-only AEAD 0xffff, TLS supported groups as utls
+\* knows them, signature schemes, RFC 8879 algorithms.)
+Registered(tk) ==
+  CASE tk = "reg:hpke_kdf"         -> {1, 2, 3}
+    [] tk = "reg:hpke_aead"        -> {1, 2, 3, 65535}
+    [] tk = "reg:named_group"      -> {23, 24, 25, 29, 30, 256, 257, 258, 4587, 4588, 25497, 25498}
+    [] tk = "reg:sig_scheme"       -> {513, 515, 1025, 1027, 1281, 1283, 1537, 1539, 2052, 2053, 2054, 2055, 2056, 2057, 2058, 2059}
+    [] tk = "reg:cert_compression" -> {1, 2, 3}
+    [] OTHER -> {}
+IsRegistry(tk) == Registered(tk) # {}
+RegistryTargets(tk) == LET R == Registered(tk) IN
+  ({0, 255, 256, 4865, 32767, 65534, 65535} \cup R \cup {r - 1 : r \in R} \cup {r + 1 : r \in R}) \cap (0..65535)
+
 HsKinds == {0, 1, 2, 4, 5, 8, 11, 12, 13, 14, 15, 16, 20, 22, 24, 25, 67, 99, 254}
 SwapTargets(b, n) ==
   LET cur == RdN(b, n.tp, n.tn) IN
   ( CASE n.tk = "hs"     -> HsKinds
       [] n.tk = "ext"    -> {41, 43, 51, 17613, 65280}
       [] n.tk = "code16" -> {0, 2570, 65535}
+      [] IsRegistry(n.tk) -> RegistryTargets(n.tk)
       [] n.tk = "code8"  -> {0, (cur + 1) % 256, 255}
       [] n.tk = "rec"    -> {0, 20, 21, 23}
       [] OTHER -> {} ) \ {cur}
@@ -295,6 +313,8 @@ OddMuts(b, N, n) ==
   LET v == RdN(b, n.lp, n.ln) IN
   One(v >= 1, Mu("odd", "oddlist", Adj(b, Anc(N, n), 0 - 1) \o << SetLen(b, n, v - 1), Sp(n.e - 1, 1, <<>>) >>))
 
+\* a vector marked "resize": its content replaced by n bytes for boundary n, every length kept consistent
+ResizeLens == {0, 1, 2, 15, 16, 17, 31, 32, 33, 64, 255, 256}
 RECURSIVE SetToSeq1(_)     \* a finite set of integers in ascending order
 SetToSeq1(S) == IF S = {} THEN <<>> ELSE LET x == CHOOSE y \in S : \A z \in S : y <= z IN <<x>> \o SetToSeq1(S \ {x})
 SwapMuts(b, n) ==
@@ -302,7 +322,37 @@ SwapMuts(b, n) ==
   LET ts == SetToSeq1(SwapTargets(b, n)) IN
   [j \in DOMAIN ts |-> Mu("swap:" \o ToString(ts[j]), "swap", << Sp(n.tp - 1, n.tn, Un(ts[j], n.tn)) >>)]
 
-NodeMuts(b, N, n) == TruncMuts(b, N, n) \o LenMuts(b, n) \o DupDropMuts(b, N, n) \o OddMuts(b, N, n) \o SwapMuts(b, n)
+ResizeMuts(b, N, n) ==
+  IF n.tk # "resize" \/ n.ln = 0 THEN <<>> ELSE
+  LET v  == RdN(b, n.lp, n.ln)
+      ls == SetToSeq1(ResizeLens \ {v}) IN
+  [j \in DOMAIN ls |-> Mu("resize:" \o ToString(ls[j]), "length",
+        Adj(b, Anc(N, n), ls[j] - v) \o << SetLen(b, n, ls[j]), Sp(n.lp + n.ln - 1, v, [i \in 1..ls[j] |-> (i * 11 + 5) % 256]) >>)]
+
+\* every extension type the library parses somewhere (ClientHello, ServerHello / HelloRetryRequest, EncryptedExtensions,
+\* certificate entries, CertificateRequest, NewSessionTicket; handshake_messages.go, u_handshake_messages.go), appended
+\* to EVERY extension list, with an empty body, a one-byte body and a minimal well-formed one
+KnownExts == <<0, 5, 10, 11, 13, 16, 17, 18, 21, 23, 27, 28, 34, 35, 41, 42, 43, 44, 45, 47, 49, 50, 51, 57, 17513, 17613, 65037, 65281>>
+MinExtBody(t) ==
+  CASE t = 0 -> <<0,4, 0, 0,1, 97>>      [] t = 5 -> <<1, 0,0, 0,0>>       [] t = 10 -> <<0,2, 0,29>>        [] t = 11 -> <<1, 0>>
+    [] t \in {13, 50, 34} -> <<0,2, 4,3>> [] t = 16 -> <<0,3, 2, 104,50>>  [] t = 18 -> <<0,3, 0,1, 0>>      [] t = 21 -> <<0,0>>
+    [] t = 27 -> <<2, 0,2>>               [] t = 28 -> <<64,0>>            [] t = 41 -> <<0,0>>              [] t = 42 -> <<0,0,0,0>>
+    [] t = 43 -> <<3,4>>                  [] t = 44 -> <<0,1, 0>>          [] t = 45 -> <<1, 1>>             [] t = 47 -> <<0,0>>
+    [] t = 51 -> <<0,29>>                 [] t \in {17513, 17613} -> <<1,2>> [] t = 65037 -> <<0,0>>         [] t = 65281 -> <<0>>
+    [] OTHER -> <<>>
+InsertExtMuts(b, N, n) ==
+  IF n.tk # "extlist" THEN <<>> ELSE
+  LET v == RdN(b, n.lp, n.ln)
+      A == Anc(N, n)
+      one(t, body, tag) == LET x == U16(t) \o Vec16(body) IN
+                           Mu("insert-ext:" \o ToString(t) \o ":" \o tag, "insertext",
+                              Adj(b, A, Len(x)) \o << SetLen(b, n, v + Len(x)), Sp(n.e, 0, x) >>)
+      per == [j \in DOMAIN KnownExts |->
+                << one(KnownExts[j], <<>>, "empty"), one(KnownExts[j], <<0>>, "1byte") >>
+                \o (IF MinExtBody(KnownExts[j]) \in {<<>>, <<0>>} THEN <<>> ELSE << one(KnownExts[j], MinExtBody(KnownExts[j]), "minimal") >>)]
+  IN Flat(per)
+
+NodeMuts(b, N, n) == InsertExtMuts(b, N, n) \o TruncMuts(b, N, n) \o LenMuts(b, n) \o DupDropMuts(b, N, n) \o OddMuts(b, N, n) \o SwapMuts(b, n) \o ResizeMuts(b, N, n)
 
 \* C07: every pair (record-layer version, legacy_version) of a ClientHello record, with the supported_versions
 \* extension kept and dropped (FromRaw maps the two to TLSVersMin / TLSVersMax when the extension is absent)
@@ -391,6 +441,10 @@ RecAfterCCS(recs) == LET i == FirstCCS(recs, 1) IN IF i = 0 \/ i = Len(recs) THE
 (* handleKeyUpdate, sendAlert, closeNotify.                                *)
 (***************************************************************************)
 PostKinds  == <<"key_update_requested", "key_update_not_requested", "new_session_ticket", "application_data", "bad_mac_record", "close">>
+\* the same phase with the roles swapped (C34): the hostile CLIENT speaks, the server's outgoing direction is ok /
+\* blocked / failing, the server application calls Read, Write, Close
+PostKindsClient == <<"key_update_requested", "key_update_not_requested", "application_data", "bad_mac_record", "raw_garbage", "close">>
+PostKindsOf(side) == IF side = "c" THEN PostKindsClient ELSE PostKinds
 Transports == <<"ok", "blocked", "failing">>
 CloseNotifyMs == 5000
 CallLimitMs(call, deadline) == IF call.call = "Close" THEN Max(deadline, call.start_ms + CloseNotifyMs) ELSE deadline
